@@ -34,11 +34,17 @@ inline std::string show(const std::string& v) { return "'" + v + "'"; }
 inline std::string show(const char* v) { return "'" + std::string(v) + "'"; }
 template <typename T> std::string show(const std::vector<T>& v);
 template <typename K, typename V> std::string show(const std::map<K, V>& v);
-template <typename A, typename B> std::string show(const std::tuple<A, B>& v) { return "(" + show(std::get<0>(v)) + ", " + show(std::get<1>(v)) + ")"; }
+template <typename... Ts> std::string show(const std::tuple<Ts...>& v);
 template <typename T> std::string show(const std::vector<T>& v) {
 	std::string s = "[";
 	for (size_t i = 0; i < v.size(); i++) { if (i) s += ", "; s += show(v[i]); }
 	return s + "]";
+}
+template <typename... Ts> std::string show(const std::tuple<Ts...>& v) {
+	std::string s = "(";
+	bool first = true;
+	std::apply([&](const auto&... e) { ((s += (first ? std::string() : std::string(", ")) + show(e), first = false), ...); }, v);
+	return s + (sizeof...(Ts) == 1 ? ",)" : ")");
 }
 template <typename K, typename V> std::string show(const std::map<K, V>& v) {
 	std::string s = "{";
